@@ -11,21 +11,28 @@ PROPS = {'C06': {'C06'}, 'C07': {'C07'}, 'C08': {'C08'}, 'C09': {'C09'},
 # VERIF_SEED names the same set of runs on every machine.
 PLANS = {
     'C06': {'quick': [('frag', 9000), ('corrupt', 3000), ('random', 1000),
-                      ('long', 300), ('threads', 400)],
+                      ('long', 300), ('threads', 400),
+                      ('long_threads', 150)],
             'thorough': [('frag', 220000), ('corrupt', 60000),
-                         ('random', 20000), ('long', 8000), ('threads', 12000)]},
+                         ('random', 20000), ('long', 8000),
+                         ('threads', 12000), ('long_threads', 4000)]},
     'C07': {'quick': [('frag', 8000), ('sweep', 1200), ('threads', 400)],
             'thorough': [('frag', 200000), ('sweep', 20000), ('threads', 12000)]},
     'C08': {'quick': [('corrupt', 10000), ('random', 1500), ('frag', 800),
-                      ('long', 300), ('truncsweep', 400), ('bytesweep', 150)],
+                      ('long', 300), ('truncsweep', 400), ('bytesweep', 150),
+                      ('fieldsweep', 120)],
             'thorough': [('corrupt', 250000), ('random', 30000),
                          ('frag', 10000), ('long', 8000),
-                         ('truncsweep', 12000), ('bytesweep', 3000)]},
+                         ('truncsweep', 12000), ('bytesweep', 3000),
+                         ('fieldsweep', 3000)]},
     'C09': {'quick': [('corrupt', 12000), ('random', 2000), ('long', 500),
-                      ('truncsweep', 400), ('bytesweep', 150), ('threads', 600)],
+                      ('truncsweep', 400), ('bytesweep', 150),
+                      ('fieldsweep', 120), ('threads', 600),
+                      ('long_threads', 400)],
             'thorough': [('corrupt', 300000), ('random', 40000),
                          ('long', 12000), ('truncsweep', 12000),
-                         ('bytesweep', 3000), ('threads', 15000)]},
+                         ('bytesweep', 3000), ('fieldsweep', 3000),
+                         ('threads', 15000), ('long_threads', 6000)]},
     'C20': {'quick': [('frag', 7000), ('corrupt', 3000), ('random', 2500), ('threads', 400)],
             'thorough': [('frag', 180000), ('corrupt', 60000),
                          ('random', 60000), ('threads', 12000)]},
@@ -338,6 +345,18 @@ def canonical_json(o):
     return json.dumps(o, sort_keys=True)
 
 
+_POPS = (' Populations: frag (fragmentation-only link), corrupt (corruption '
+         'faults), random (raw/header-shaped buffers), long (60-200 '
+         'table-heavy frames per connection with run-wide distinct keys and '
+         'damaged frames in between: state that accumulates over a process '
+         'history), threads (every connection - producer encode and '
+         'receiver decode - is a real thread under the baton scheduler, '
+         'pre-empted at pamqp source lines by an explicit schedule plus the '
+         'novel-line policy), sweep / truncsweep / bytesweep / fieldsweep '
+         '(enumerated single faults: every cut point, every payload '
+         'truncation, every byte overwritten with a value set, every '
+         'length/flag/tag/id field rewritten to a value set). Each run '
+         'executes in a freshly forked child of a library-pristine process.')
 _NT = (' A run is non-trivial if at least one link fault (fragment, coalesce, '
        'stall, close, trailing, raw bytes or a corruption kind) actually '
        'fired while a frame was in flight AND at least one oracle of this '
@@ -389,6 +408,8 @@ _COMMON_ASSUME = [
     'connection (taint) and are never suspended in the fragmentation-only '
     'population',
 ]
+for _k in list(RULE):
+    RULE[_k] = RULE[_k] + _POPS
 ASSUMPTIONS = {
     'C06': _COMMON_ASSUME + [
         'reference for a delivered frame is the isolated decode of the same '
